@@ -6,7 +6,8 @@ from univers.version_constraint import VersionConstraint
 MODULES = ["Univers.Props.C08", "Univers.Props.Schemes"]
 LEVEL = "proof"
 # function-level tie (translator + agreement theorems): see runner step 3a
-TIE_THEOREMS = {"Univers.Vers.GenSimplifyThm": ["Univers.Gen.LayerB.deduplicate_eq", "Univers.Gen.LayerB.simplify_constraints_eq", "Univers.Gen.LayerB.con_simplify_eq"]}
+TIE_THEOREMS = {"Univers.Vers.GenLayerBExact": ["Univers.Gen.LayerB.py_simplify_spec"],
+                "Univers.Vers.GenSimplifyThm": ["Univers.Gen.LayerB.deduplicate_eq", "Univers.Gen.LayerB.simplify_constraints_eq", "Univers.Gen.LayerB.con_simplify_eq"]}
 RULE = ("bounded-exhaustive: every comparator sequence up to length L on version-sorted distinct versions (well-formed "
         "or not), plus variants with exact duplicates, on real versions of every hashable scheme; the real "
         "VersionConstraint.simplify is compared with the Lean model, and whenever they differ the four clauses of the "
